@@ -1,9 +1,13 @@
 """C13 — calls are free of side effects, repeatable, and leave nothing behind.
-Proof gate (Properties/C13.v: the alias-aware state machine Model/K20_History.v) + the before/after differential
-check on the implementation (harness/impl/c13.py), which is the part that ties the property to the code:
-for every public estimator and random small valid data, deep comparison of every caller-owned object after every call
-of a random history (fit / fit_transform, transforms, poisoned inputs, fits made to raise in a later block), TMPDIR and
-cachedir listings, every history output against a single call on a fresh fit, two fits against each other."""
+Proof gate (Properties/C13.v: the alias-aware state machine Model/K20_History.v, incl. K20c, a private cache that
+transform consults) + the before/after differential check on the implementation (harness/impl/c13.py), which is the
+part that ties the property to the code.
+
+The implementation side is SYSTEMATIC: every estimator has a table of sensitive configurations (impl/c13.py,
+cells_<name>) whose primary dimensions are fully crossed and whose secondary dimensions are rotated from the seed; the
+quick tier walks every cell of every table once, the thorough tier walks them for several seeds.  What one cell does
+(fault fit, fit, history A B A B-raising A malformed ... with B of the same shape as A and other contents, refit) is
+described at the top of impl/c13.py."""
 import json
 import os
 import shutil
@@ -14,24 +18,40 @@ from concurrent.futures import ThreadPoolExecutor
 
 from . import common as C
 
-# grouped so that the children take about the same time (numba compilation dominates)
+# One child per group: numba compilation dominates, so the scenarios of one estimator stay in one child and the
+# groups are cut so that the children take about the same time.  WassersteinVectorizer is cut by code path (each path
+# compiles its own kernels).  {"est": ..., "where": {dimension: [values]}} restricts a job to part of a table.
+W = "WassersteinVectorizer"
 GROUPS = [
-    ["TokenCooccurrenceVectorizer", "SequentialDifferenceTransformer"],
-    ["TimedTokenCooccurrenceVectorizer", "CategoricalColumnTransformer"],
-    ["NgramCooccurrenceVectorizer", "HistogramVectorizer"],
-    ["MultiSetCooccurrenceVectorizer", "KDEVectorizer"],
-    ["SkipgramVectorizer", "EdgeListVectorizer", "SlidingWindowTransformer"],
-    ["LZCompressionVectorizer", "BytePairEncodingVectorizer", "NgramVectorizer"],
-    ["LabelledTreeCooccurrenceVectorizer", "DistributionVectorizer"],
-    ["WassersteinVectorizer"],
-    ["WassersteinVectorizer"],
-    ["SinkhornVectorizer"],
-    ["ApproximateWassersteinVectorizer", "CountFeatureCompressionTransformer"],
-    ["InformationWeightTransformer", "RowDenoisingTransformer"],
+    [{"est": "TokenCooccurrenceVectorizer"}],
+    [{"est": "TimedTokenCooccurrenceVectorizer"}],
+    [{"est": "MultiSetCooccurrenceVectorizer"}],
+    [{"est": "NgramCooccurrenceVectorizer"}],
+    [{"est": "SkipgramVectorizer"}, {"est": "NgramVectorizer"}, {"est": "EdgeListVectorizer"}, {"est": "HistogramVectorizer"}],
+    [{"est": "LabelledTreeCooccurrenceVectorizer"}, {"est": "DistributionVectorizer"}, {"est": "KDEVectorizer"}],
+    [{"est": "LZCompressionVectorizer"}],
+    [{"est": "BytePairEncodingVectorizer"}, {"est": "CategoricalColumnTransformer"}],
+    [{"est": W, "where": {"path": ["spmatrix/LOT_exact", "spmatrix/HeuristicLinearAlgebra"]}}],
+    [{"est": W, "where": {"path": ["spmatrix/LOT_sinkhorn"]}}, {"est": "SinkhornVectorizer"}],
+    [{"est": W, "where": {"path": ["lil/LOT_exact", "generator/LOT_exact"]}}],
+    [{"est": "ApproximateWassersteinVectorizer"}, {"est": "InformationWeightTransformer"}, {"est": "RowDenoisingTransformer"},
+     {"est": "CountFeatureCompressionTransformer"}],
+    [{"est": "SlidingWindowTransformer"}],
+    [{"est": "SequentialDifferenceTransformer"}],
 ]
-ALL = sorted({n for g in GROUPS for n in g})
+ALL = sorted({j["est"] for g in GROUPS for j in g})
 # exported but not runnable here / excluded from a claim (said in the manifest):
 NOT_RUN = {"SignatureVectorizer": "needs the optional dependency iisignature, which is not installed"}
+# what every run must have covered for the estimators that have the dimension (checked after the run)
+MUST_COVER = {
+    "LabelledTreeCooccurrenceVectorizer": {"prune": ["off", "min_occ", "dict", "ignored"], "mask": ["off", "on"], "outer": ["list", "tuple", "ndarray_obj"]},
+    W: {"path": ["spmatrix/LOT_exact", "spmatrix/LOT_sinkhorn", "spmatrix/HeuristicLinearAlgebra", "lil/LOT_exact", "generator/LOT_exact"],
+        "memory": ["small", "2G"], "cachedir": ["None", "CACHEDIR"], "lilx": ["list", "tuple", "typedlist"],
+        "fmt": ["csr", "csc", "coo", "lil", "dok", "dia", "bsr", "csr_unsorted", "csc_unsorted", "csr_zeros", "csc_zeros", "ndarray"]},
+    "SinkhornVectorizer": {"memory": ["small", "2G"], "cachedir": ["None", "CACHEDIR"]},
+    "TokenCooccurrenceVectorizer": {"prune": ["off", "min_occ", "dict", "excluded"], "mask": ["off", "on", "nullify"],
+                                    "outer": ["list", "tuple", "ndarray_obj", "series"], "inner": ["mixed", "ndarray_str"]},
+}
 
 
 def run_child(jobs, timeout=1500):
@@ -62,84 +82,117 @@ def run(ctx, replay=None):
     C.run_gate(ctx)
     if replay:
         case = replay["case"]
-        batches = [[[case["estimator"], case["seed"]]]]
+        batches = [[{"est": case["estimator"], "seed": case["seed"], "only": case["cell_index"]}]]
     else:
-        # seeds are drawn from ctx.rng; every estimator is covered in both tiers, the Wasserstein family (the only
-        # one with temporary files and fault points) more densely
-        per = 2 if ctx.quick else 24
-        batches = []
-        for g in GROUPS:
-            jobs = []
-            for name in g:
-                k = per * (2 if name == "WassersteinVectorizer" else 1)     # two Wasserstein groups: 4x in total
-                jobs += [[name, ctx.rng.randrange(10 ** 6)] for _ in range(k)]
-            batches.append(jobs)
-    ctx.coverage["rule"] = ("one scenario per (estimator, seed): random constructor parameters (incl. caller dictionaries / index "
-                            "arrays), random small valid data (sparse inputs with unsorted indices and explicit zeros, lists of "
-                            "arrays, generators, data frames), optional faulting fit, fit or fit_transform, a history of 3-6 "
-                            "transform calls over persistent caller objects with an optional malformed input; non-trivial = "
-                            "the scenario made >= 3 calls")
+        # the data seeds are drawn from ctx.rng; the quick tier walks every table once, the thorough tier several times
+        # (other data, other pairing of the secondary dimensions)
+        seeds = [ctx.rng.randrange(10 ** 6) for _ in range(1 if ctx.quick else 8)]
+        batches = [[dict(j, seed=s) for s in seeds for j in g] for g in GROUPS]
+    ctx.coverage["rule"] = ("one scenario per cell of the table (estimator x sensitive configuration) and seed: constructor parameters incl. "
+                            "caller dictionaries / sets / index arrays / cachedir, tiny valid data in the cell's containers and formats, "
+                            "faulting fit, fit or fit_transform, the history A B A B!fault A malformed <other pool inputs> B A over persistent "
+                            "caller objects (B: same shape as A, other contents), refit on other data of the same shape, B A; "
+                            "non-trivial = the scenario made >= 3 calls")
     ctx.assumptions += [
         "SignatureVectorizer is not run: " + NOT_RUN["SignatureVectorizer"],
         "repeatability of fits is claimed for an integer random_state only; excluded as documented-random without a seed: "
-        "SlidingWindowTransformer(window_sample='random') (np.random.choice in fit, no seed parameter) and "
+        "SlidingWindowTransformer(window_sample='random') (np.random.choice in fit, no seed parameter; its refit stage is skipped too) and "
         "LZCompressionVectorizer in hashed mode with random_state=None (every LZ scenario passes an integer)",
         "the single-call reference is one transform on an untouched deep copy of the estimator taken right after fit (a fresh "
-        "construct+fit when the estimator cannot be deep-copied: the numba-backed co-occurrence family)",
+        "construct+fit when the estimator cannot be deep-copied: the numba-backed co-occurrence family and LZ)",
         "SVD based models whose requested components exceed the numerical rank (or with coinciding singular values) are counted "
         "(degenerate_svd) and their attributes not compared between two fits: the extra singular vectors are rounding noise",
-        "outputs and fitted attributes are compared at rtol 1e-9 / atol 1e-12, exceptions by class; aliasing of a caller object "
-        "by a fitted attribute is recorded (evidence), only a modification is a violation",
-        "the faults of a blockwise fit are injected by making the k-th randomized_svd call raise (monkeypatch in the child), "
-        "by an invalid reference distribution (natural ValueError in block 1) and by a generator that raises at item k",
-        "Coq side: K20 is a model of which objects are shared and which operations mutate, not of the numerics",
+        "outputs and fitted attributes are compared 'to 1e-9': max|a-b| <= 1e-9 * max(1, max|b|) per array, exceptions by class; aliasing "
+        "of a caller object by a fitted attribute is recorded (evidence) and a violation only for token_dictionary, which the library "
+        "documents to copy; a modification of any caller object (values, dtypes, sparse internals, identity of container elements) is a violation",
+        "refit comparison: every attribute that a fresh fit on the same data defines has the same value on the refitted estimator "
+        "(attributes assigned by earlier transform calls, e.g. RowDenoisingTransformer.mix_weights_, are not part of a fit)",
+        "faults: the k-th call of randomized_svd or of the per-block kernel (lot_vectors_sparse_internal, lot_vectors_dense_internal, "
+        "sinkhorn_vectors_sparse_internal) is made to raise by replacing the module attribute in the child (fit AND transform); an "
+        "invalid reference distribution (natural ValueError in block 1); a generator that raises at item k; a malformed input",
+        "speed shim in the child: utils.make_tuple_converter is memoised per ngram_size (NgramCooccurrenceVectorizer asks for a new numba "
+        "closure in every fit, which recompiles the kernel, ~3 s per fit); the closure depends on ngram_size only",
+        "container/format lists are the ones the unchanged library accepts (probed once by hand): np.matrix / sparse *arrays* are rejected "
+        "by the library, CountFeatureCompressionTransformer.fit reads X.data (no lil/dok), float32 vectors are not run (extra numba "
+        "specialisations), a list of pd.Series makes HistogramVectorizer.fit raise",
+        "Coq side: K20 is a model of which objects are shared and which operations mutate (incl. a consulted cache), not of the numerics",
     ]
-    with ThreadPoolExecutor(max_workers=12) as ex:
+    with ThreadPoolExecutor(max_workers=len(batches)) as ex:
         results = list(ex.map(run_child, batches))
     n_calls = n_raised = 0
-    aliases, faults, per_est, errors = {}, {}, {}, []
-    ctx.coverage["child_wall_s"] = {"+".join(sorted({j[0] for j in jobs})): info["wall_s"] for jobs, _, info in results}
+    aliases, faults, per_est, errors, seen, walls = {}, {}, {}, [], {}, {}
+    ctx.coverage["child_wall_s"] = {"+".join(sorted({j["est"] + ("[%s]" % ",".join(v[0] for v in j["where"].values()) if j.get("where") else "")
+                                                     for j in jobs})): info["wall_s"] for jobs, _, info in results}
     for jobs, res, info in results:
-        done = len(res) if res else 0
-        if res is None or done != len(jobs):
-            ctx.report("implementation child died (rc=%s) in scenario %s: %s" % (info["rc"], jobs[min(done, len(jobs) - 1)], info["tail"][-400:]),
-                       {"stage": "impl-crash", "case": {"estimator": jobs[min(done, len(jobs) - 1)][0], "seed": jobs[min(done, len(jobs) - 1)][1]}},
-                       found_input=True)
+        if res is None or info["rc"] != 0:
+            last = (res or [{}])[-1]
+            j = jobs[0]
+            ctx.report("implementation child died (rc=%s) after scenario %s/%s cell %s: %s" % (info["rc"], last.get("est", j["est"]), last.get("seed", j["seed"]),
+                                                                                        last.get("cell_index"), info["tail"][-400:]),
+                       {"stage": "impl-crash", "case": {"estimator": last.get("est", j["est"]), "seed": last.get("seed", j["seed"]),
+                                                        "cell_index": (last.get("cell_index", -1) + 1)}}, found_input=True)
         for r in res or []:
-            case = {"estimator": r["est"], "seed": r["seed"], "scenario": r.get("desc", "")}
+            case = {"estimator": r["est"], "seed": r["seed"], "cell_index": r.get("cell_index"), "cell": r.get("cell"), "scenario": r.get("desc", ""),
+                    "history": r.get("history")}
             nontrivial = r.get("calls", 0) >= 3
-            ctx.count_case(case, nontrivial, r["est"])
+            ctx.count_case({k: case[k] for k in ("estimator", "seed", "cell_index", "scenario")}, nontrivial, r["est"])
             n_calls += r.get("calls", 0)
             n_raised += r.get("raised", 0)
-            d = per_est.setdefault(r["est"], {"scenarios": 0, "calls": 0, "raised": 0, "history_calls": 0, "watched": 0})
+            d = per_est.setdefault(r["est"], {"cells": r.get("n_cells"), "scenarios": 0, "calls": 0, "raised": 0, "history_calls": 0, "watched": 0,
+                                              "wall_s": 0.0, "dimensions": {}})
             d["scenarios"] += 1
             d["calls"] += r.get("calls", 0)
             d["raised"] += r.get("raised", 0)
-            d["history_calls"] += r.get("checks", {}).get("history", 0)
+            d["history_calls"] += r.get("checks", {}).get("history", 0) + r.get("checks", {}).get("refit_history", 0)
             d["watched"] += r.get("watched", 0)
+            d["wall_s"] = round(d["wall_s"] + (r.get("wall_s") or 0), 2)
+            ok = not r.get("error")
+            if ok:
+                seen.setdefault((r["est"], r["seed"]), set()).add(r.get("cell_index"))
+                for k, v in (r.get("cell") or {}).items():
+                    vals = d["dimensions"].setdefault(k, [])
+                    if str(v) not in vals:
+                        vals.append(str(v))
             for a in r.get("aliases", []):
                 aliases["%s.%s" % (r["est"], a)] = aliases.get("%s.%s" % (r["est"], a), 0) + 1
             for k, v in r.get("checks", {}).items():
-                if k.startswith("fault_") or k in ("reference", "degenerate_svd"):
+                if k.startswith("fault_") or k in ("reference", "degenerate_svd", "degenerate_svd_refit", "poison"):
                     faults["%s:%s" % (k, v)] = faults.get("%s:%s" % (k, v), 0) + 1
             if r.get("error"):
-                errors.append("%s/%s: %s" % (r["est"], r["seed"], r["error"]))
+                errors.append("%s/%s cell %s %s: %s" % (r["est"], r["seed"], r.get("cell_index"), json.dumps(r.get("cell")), r["error"]))
             for v in r["violations"]:
                 key = "%s:%s" % (r["est"], v["kind"])
-                ctx.report("%s [%s, seed %d]: %s: %s" % (r["est"], r.get("desc", "")[:160], r["seed"], v["kind"], v["detail"]),
+                ctx.report("%s [cell %s of %s, seed %d: %s; history %s]: %s: %s"
+                           % (r["est"], r.get("cell_index"), r.get("n_cells"), r["seed"], r.get("desc", "")[:260], " ".join(r.get("history") or []), v["kind"], v["detail"]),
                            {"stage": "oracle", "case": case, "kind": v["kind"], "detail": v["detail"]},
                            found_input=True, finding_key=key)
     ctx.coverage["oracle"] = {"calls": n_calls, "calls_that_raised": n_raised, "estimators": len(per_est), "fault_and_reference_outcomes": faults}
     ctx.coverage["per_estimator"] = per_est
     ctx.coverage["aliases_observed"] = aliases
-    ctx.coverage["correspondence"] = {"model": "Model/K20_History.v (sharing/mutation structure); validated by the before/after "
+    ctx.coverage["correspondence"] = {"model": "Model/K20_History.v (sharing/mutation structure, consulted cache); validated by the before/after "
                                                "comparison of %d calls" % n_calls, "cases": n_calls, "disagreements": len(ctx.violations)}
     ctx.coverage["traces_validated_against_impl"] = n_calls
     ctx.coverage["scenario_errors"] = errors[:20]
-    missing = [n for n in ALL if n not in per_est] if not replay else []
-    harness_errors = [e for e in errors if ": harness:" in e]
-    if (missing or harness_errors) and not ctx.violations:
-        ctx.report("scenarios did not run: missing %s; errors %s" % (missing, harness_errors[:3]),
-                   {"stage": "harness", "missing": missing, "errors": harness_errors[:5]}, found_input=False)
+    # completeness of the walk: every cell of every table ran to the end, for every seed; the named values were covered
+    problems = []
+    if not replay:
+        for name in ALL:
+            d = per_est.get(name)
+            if d is None:
+                problems.append("%s: no scenario ran" % name)
+                continue
+            for (n2, s), cells in seen.items():
+                if n2 == name and len(cells) != d["cells"]:
+                    problems.append("%s seed %d: %d of %d cells completed" % (name, s, len(cells), d["cells"]))
+            if not any(n2 == name for n2, _ in seen):
+                problems.append("%s: no cell completed" % name)
+            for dim, vals in MUST_COVER.get(name, {}).items():
+                miss = [v for v in vals if v not in d["dimensions"].get(dim, [])]
+                if miss:
+                    problems.append("%s: %s never took the value(s) %s" % (name, dim, miss))
+    problems += [e for e in errors if ": harness:" in e][:3]
+    if problems and not ctx.violations:
+        ctx.report("the table was not walked completely: %s; errors: %s" % (problems[:6], errors[:3]),
+                   {"stage": "harness", "problems": problems[:20], "errors": errors[:5]}, found_input=False)
     C.gate_violation(ctx)
     return ctx.finish("proof")
